@@ -29,3 +29,9 @@ package signers
 //@   property C06
 //@   ensures @other_options_unchanged ret0.Audit == o.Audit && ret0.Hash == o.Hash && ret0.Flags == o.Flags && ret0.Path == o.Path
 //@   modifies nothing
+//@
+//@ func (fileProducer).GetReader
+//@   property C09
+//@   ghost rewound bool = false
+//@   on call (*os.File).Seek(f, off, whence) ret (n, e): rewound = (e == nil && f == p.f && off == 0 && whence == 0)
+//@   ensures @stream_starts_at_the_beginning_of_the_file_every_time ret1 == nil ==> rewound && ret0 == iface(p.f)
